@@ -181,7 +181,10 @@ class SimProcess:
             return
         self.exited = True
         if self.code == 0:
-            (self.jobdir / f"{self.name}.done").touch()
+            # a body may end the process with status 0 without going through the runner (os._exit(0), a foreign launcher
+            # script): plans mark such jobs "nomarker"; the exit status alone says DONE (C06)
+            if not (self.owned and self.jobkey in getattr(self.eng, "nomarker", ())):
+                (self.jobdir / f"{self.name}.done").touch()
         else:
             (self.jobdir / f"{self.name}.failed").write_text(str(self.code))
         pidf = self.jobdir / f"{self.name}.pid"
@@ -336,6 +339,7 @@ class Engine:
         self.jobs = {}  # key -> list of Job objects (attempts)
         self.jobdir2key = {}
         self.codes = {}  # key -> list of exit codes per launch
+        self.nomarker = set()  # keys of jobs whose process exits 0 without writing the success marker
         self.launch_count = {}
         self.hooks = []  # monitors: objects with on_launch/on_exit/...
         self.in_body = threading.local()
